@@ -43,7 +43,7 @@ def branchName : Branch → String
   | .skip => "skip" | .leaf => "leaf" | .root => "root" | .twin => "twin" | .both => "both"
 
 section
-variable {α : Type} [Add α] [Sub α] [Mul α] [Div α] [Neg α] [OfNat α 0] [OfNat α 1]
+variable {α : Type} [Add α] [Sub α] [Mul α] [Div α] [Neg α] [OfNat α 0] [OfNat α 1] [OfNat α 2]
   [LT α] [LE α] [DecidableLT α] [DecidableLE α] [Inhabited α] [BEq α]
 
 def renderPairs (C : Carrier α) (xs : List (α × α)) : String :=
@@ -97,7 +97,9 @@ def assembledExact (net : Net α) (s : State α) : Bool :=
     (p.1 == sc * a.1) && (p.2 == sc * a.2))
 
 /-- Scalar kernels, one per block: `op damp` / `args x0 x1 y0 y1 s` → `<id> <d> <ok>`;
-`op rescale` / `args x0 x1 s` → `<id> <eta> <ok>`; `op rootward0` / `args c0 c1 l0 l1` → `<id> <p0> <p1> <skip>`. -/
+`op rescale` / `args x0 x1 s` → `<id> <eta> <ok>`; `op rootward0` / `args c0 c1 l0 l1` → `<id> <p0> <p1> <skip>`;
+`op gammamom` / `args mn va`; `op moments` / `args a b`; `op flip` / `args x`;
+`op iqr` / `args q1 q2 x1 x2 maxShape alpha0 newton gcap ga midpt` (NaN newton = no convergence). -/
 def runOp (C : Carrier α) (id op : String) (blk : List (List String)) : IO Unit := do
   let b (x : Bool) : String := if x then "1" else "0"
   let res : Option String := do
@@ -110,6 +112,18 @@ def runOp (C : Carrier α) (id op : String) (blk : List (List String)) : IO Unit
       match rootwardT0 (c0, c1) (l0, l1) with
       | some p => some (C.render p.1 ++ " " ++ C.render p.2 ++ " 0")
       | none => some (C.render c0 ++ " " ++ C.render c1 ++ " 1")
+    | "gammamom", [mn, va] => some (C.render (gammaMom mn va).1 ++ " " ++ C.render (gammaMom mn va).2)
+    | "moments", [a, b] => some (C.render (momentsOf (a, b)).1 ++ " " ++ C.render (momentsOf (a, b)).2)
+    | "flip", [x] =>
+      -- a NaN (not ≤ itself) stands for the undefined phase
+      match flipPhase (if x ≤ x then some x else none) with
+      | some y => some (C.render y)
+      | none => some "nan"
+    | "iqr", [q1, q2, x1, x2, ms, alpha0, nwt, gcap, ga, midpt] =>
+      let newton : Option α := if nwt ≤ nwt then some nwt else none
+      match reproject q1 q2 x1 x2 ms alpha0 newton (fun a _ => if a ≤ ms ∧ ms ≤ a then gcap else ga) midpt with
+      | some r => some (C.render r.1 ++ " " ++ C.render r.2)
+      | none => some "raise"
     | _, _ => none
   match res with
   | some r => IO.println s!"{id} {r}"
@@ -164,7 +178,7 @@ def runCase (C : Carrier α) (blk : List (List String)) : IO Unit := do
       match ← sweepIO C star cfg net false sch.edgeOrder s1 with
       | .error e => IO.println s!"BAD {id} {e}"; return
       | .ok (s2, f2) =>
-      if sch.regularise && !priorOk sch.free sch.cnt sch.reltol sch.maxitt s2 then
+      if sch.regularise && !priorOk cfg sch.free sch.cnt sch.reltol sch.maxitt s2 then
         IO.println s!"BAD {id} prior-assert"; return
       let s3 := if sch.regularise then prior cfg sch.free sch.cnt sch.reltol sch.maxitt s2 else s2
       s := rescaleFactors net s3
